@@ -113,6 +113,17 @@ class Topo:
                 best = x[0]
         return best
 
+    def earliest_trigger_tuple(self, q, s, tt):
+        """earliest tiered time at which a step of q at tt can trigger s (None: cannot)"""
+        best = None
+        for path in self.trigger_paths().get((q, s), []):
+            x = tt
+            for c in path:
+                x = self.arrive(c, x)
+            if best is None or x < best:
+                best = x
+        return best
+
     def group_reentry(self):
         """Is there a group G with a weak connection inside and two simulators of G that are
         connected by a path through a simulator outside G?  (structural classifier of F21)"""
